@@ -18,7 +18,7 @@
 (* than HEADERS/DATA/RST/WINDOW_UPDATE read since the request, a do-not-reuse or GOAWAY          *)
 (* connection, the gRPC ping workaround); whether a one-shot body or the first stream of a        *)
 (* connection hit by an error GOAWAY is retried or reported; retry timing (backoff).             *)
-EXTENDS Integers, Sequences, FiniteSets, TLC
+EXTENDS Integers, Sequences, FiniteSets, FiniteSetsExt, TLC
 
 CONSTANTS Conns,      \* connection numbers 1..n in dial order
           Reqs,       \* request numbers
@@ -41,14 +41,18 @@ VARIABLES
     maxc,     \* the server's current SETTINGS_MAX_CONCURRENT_STREAMS
     ga,       \* [on, last, err]: GOAWAY received
     resv,     \* reservations made through ClientConn.ReserveNewRequest and not yet used
-    lowm,     \* the lowest limit in force since the last event that wakes queued requests (a stream finished, PING ack)
+    lowm,     \* the lowest limit in force since the last event that wakes queued requests (a stream finished, PING ack),
+              \* minus the reservations released since then
     doomed,   \* open streams the client has a reason to reset (cancel, closed body, GOAWAY > last)
     own,      \* [Conns -> [stream id -> [r: request, n: DATA bytes the client has written on the stream]]]
-    req,      \* [Reqs -> [st, c, s, body, len, direct, may]]   (len: total length of the request body)
+    req,      \* [Reqs -> [st, c, s, body, len, hdr, direct, may]]   (len: body length; hdr: "ok", or the request
+              \* carries a header the client must refuse when it encodes HEADERS: "big" (over the peer's
+              \* SETTINGS_MAX_HEADER_LIST_SIZE, if already known) / "bad" (invalid field value))
+    nsf,      \* RoundTrips that ended without ever getting a stream id since the last quiescent point (see Quiesce)
     dev       \* named deviations of the real code that were observed (known findings), see Quiesce
 
 connVars == <<cst, lastId, open, cend, send, fresh, freshLo, pr, blocked, dnr, maxc, ga, resv, lowm, doomed, own>>
-vars == <<strict, dev, cst, lastId, open, cend, send, fresh, freshLo, pr, blocked, dnr, maxc, ga, resv, lowm, doomed, own, req>>
+vars == <<strict, dev, nsf, cst, lastId, open, cend, send, fresh, freshLo, pr, blocked, dnr, maxc, ga, resv, lowm, doomed, own, req>>
 
 J17 == "C17" \in Judge
 J18 == "C18" \in Judge
@@ -63,12 +67,12 @@ Pat(r, o) == (o * 7 + r * 13) % 251            \* byte at offset o of the body o
 Current(r, c, s) == r \in Reqs /\ req[r].c = c /\ req[r].s = s     \* (c,s) is r's latest attempt
 InFlight(r, c, s) == Current(r, c, s) /\ req[r].st = "open"        \* ... and RoundTrip has not returned
 
-ReqNew == [st |-> "new", c |-> 0, s |-> 0, body |-> "none", len |-> 0, direct |-> 0, may |-> {}]
+ReqNew == [st |-> "new", c |-> 0, s |-> 0, body |-> "none", len |-> 0, hdr |-> "ok", direct |-> 0, may |-> {}]
 Fin(q, kinds) == [q EXCEPT !.st = "fin", !.may = kinds]            \* RoundTrip must return, with one of kinds
 Back(q, kinds) == [q EXCEPT !.st = "wait", !.may = kinds]          \* retry (or, if kinds # {}, return one of them now)
 
 InitWith(st) ==
-    /\ strict = st /\ dev = {}
+    /\ strict = st /\ dev = {} /\ nsf = 0
     /\ cst = [c \in Conns |-> "none"] /\ lastId = [c \in Conns |-> 0]
     /\ open = [c \in Conns |-> {}] /\ cend = [c \in Conns |-> {}] /\ send = [c \in Conns |-> {}]
     /\ fresh = [c \in Conns |-> {}] /\ freshLo = [c \in Conns |-> {}]
@@ -88,26 +92,36 @@ NoDrop == UNCHANGED <<open, lowm, doomed>>
 
 -----------------------------------------------------------------------------
 (* ---------------- application ---------------- *)
-Start(r, b, len) ==
+Start(r, b, len, hdr) ==
     /\ r \in Reqs /\ req[r].st = "new"
-    /\ req' = [req EXCEPT ![r] = [ReqNew EXCEPT !.st = "wait", !.body = b, !.len = len]]
-    /\ UNCHANGED <<strict, dev, connVars>>
+    /\ req' = [req EXCEPT ![r] = [ReqNew EXCEPT !.st = "wait", !.body = b, !.len = len, !.hdr = hdr]]
+    /\ UNCHANGED <<strict, dev, nsf, connVars>>
 
 (* ClientConn.RoundTrip called directly on connection c; it uses up one reservation *)
-StartOn(r, c, b, len) ==
+StartOn(r, c, b, len, hdr) ==
     /\ r \in Reqs /\ c \in Conns /\ req[r].st = "new" /\ cst[c] # "none"
-    /\ req' = [req EXCEPT ![r] = [ReqNew EXCEPT !.st = "wait", !.body = b, !.len = len, !.direct = c]]
+    /\ req' = [req EXCEPT ![r] = [ReqNew EXCEPT !.st = "wait", !.body = b, !.len = len, !.hdr = hdr, !.direct = c]]
     /\ resv' = [resv EXCEPT ![c] = IF @ > 0 THEN @ - 1 ELSE 0]
-    /\ UNCHANGED <<strict, dev, cst, lastId, open, cend, send, fresh, freshLo, pr, blocked, dnr, maxc, ga, lowm, doomed, own>>
+    /\ UNCHANGED <<strict, dev, nsf, cst, lastId, open, cend, send, fresh, freshLo, pr, blocked, dnr, maxc, ga, lowm, doomed, own>>
 
 (* ClientConn.ReserveNewRequest: what the pool asks before it assigns a request.  C17: without *)
 (* strict mode a connection at its limit does not accept.                                      *)
-Reserve(c, ok) ==
+(* lim: the net/http ClientConn.Reserve path, which never reserves past the limit (also strict) *)
+Reserve(c, ok, lim) ==
     /\ c \in Conns /\ cst[c] # "none"
     /\ (J17 /\ ok) => /\ MayOpen(c)
-                      /\ strict \/ Count(c) + resv[c] < maxc[c]
+                      /\ (strict /\ ~lim) \/ Count(c) + resv[c] < maxc[c]
     /\ resv' = [resv EXCEPT ![c] = IF ok THEN @ + 1 ELSE @]
-    /\ UNCHANGED <<strict, dev, cst, lastId, open, cend, send, fresh, freshLo, pr, blocked, dnr, maxc, ga, lowm, doomed, own, req>>
+    /\ UNCHANGED <<strict, dev, nsf, cst, lastId, open, cend, send, fresh, freshLo, pr, blocked, dnr, maxc, ga, lowm, doomed, own, req>>
+
+(* a reservation is given back unused (net/http ClientConn.Release) *)
+Release(c) ==
+    /\ c \in Conns /\ cst[c] # "none"
+    /\ resv' = [resv EXCEPT ![c] = IF @ > 0 THEN @ - 1 ELSE 0]
+    (* Release does not wake queued requests (no broadcast), and the property text does not ask for it: *)
+    (* the bound a queued request is held against goes down with the released slot until the next wake   *)
+    /\ lowm' = [lowm EXCEPT ![c] = IF @ > 0 THEN @ - 1 ELSE @]
+    /\ UNCHANGED <<strict, dev, nsf, cst, lastId, open, cend, send, fresh, freshLo, pr, blocked, dnr, maxc, ga, doomed, own, req>>
 
 Cancel(r) ==
     /\ r \in Reqs /\ req[r].st \in {"wait", "open", "done"}
@@ -115,6 +129,7 @@ Cancel(r) ==
            hasStream == c \in Conns /\ s \in open[c] IN
        /\ req' = [req EXCEPT ![r] = IF @.st = "done" THEN @ ELSE Fin(@, {"canceled"})]
        /\ doomed' = IF hasStream THEN [doomed EXCEPT ![c] = @ \cup {s}] ELSE doomed
+    /\ nsf' = IF req[r].st = "wait" THEN nsf + 1 ELSE nsf     \* (a queued request: it will end without a stream id)
     /\ UNCHANGED <<strict, dev, cst, lastId, open, cend, send, fresh, freshLo, pr, blocked, dnr, maxc, ga, resv, lowm, own>>
 
 (* the application closes the response body of a finished RoundTrip *)
@@ -122,7 +137,7 @@ CloseBody(r) ==
     /\ r \in Reqs /\ req[r].st = "done"
     /\ LET c == req[r].c  s == req[r].s IN
        doomed' = IF c \in Conns /\ s \in open[c] THEN [doomed EXCEPT ![c] = @ \cup {s}] ELSE doomed
-    /\ UNCHANGED <<strict, dev, cst, lastId, open, cend, send, fresh, freshLo, pr, blocked, dnr, maxc, ga, resv, lowm, own, req>>
+    /\ UNCHANGED <<strict, dev, nsf, cst, lastId, open, cend, send, fresh, freshLo, pr, blocked, dnr, maxc, ga, resv, lowm, own, req>>
 
 (* ---------------- server ---------------- *)
 Settings(c, m) ==
@@ -130,15 +145,18 @@ Settings(c, m) ==
     /\ maxc' = [maxc EXCEPT ![c] = m]
     /\ lowm' = [lowm EXCEPT ![c] = IF m < @ THEN m ELSE @]
     /\ freshLo' = [freshLo EXCEPT ![c] = {}]
-    /\ UNCHANGED <<strict, dev, cst, lastId, open, cend, send, fresh, pr, blocked, dnr, ga, resv, doomed, own, req>>
+    /\ UNCHANGED <<strict, dev, nsf, cst, lastId, open, cend, send, fresh, pr, blocked, dnr, ga, resv, doomed, own, req>>
 
 (* a SETTINGS frame without SETTINGS_MAX_CONCURRENT_STREAMS (empty, or other settings only):   *)
 (* RFC 9113 6.5 - a setting keeps its value until a SETTINGS frame changes it; only its absence  *)
 (* from the connection's first SETTINGS frame means "default".                                   *)
-SettingsOther(c) ==
+(* wake: the frame changes SETTINGS_INITIAL_WINDOW_SIZE, which wakes everything that waits on    *)
+(* the connection (flow control), queued requests included                                       *)
+SettingsOther(c, wake) ==
     /\ c \in Conns /\ cst[c] = "up"
     /\ freshLo' = [freshLo EXCEPT ![c] = {}]
-    /\ UNCHANGED <<strict, dev, cst, lastId, open, cend, send, fresh, pr, blocked, dnr, maxc, ga, resv, lowm, doomed, own, req>>
+    /\ lowm' = [lowm EXCEPT ![c] = IF wake THEN maxc[c] ELSE @]
+    /\ UNCHANGED <<strict, dev, nsf, cst, lastId, open, cend, send, fresh, pr, blocked, dnr, maxc, ga, resv, doomed, own, req>>
 
 SawStreamFrame(c, hd) ==       \* bookkeeping common to HEADERS/DATA (hd) and RST_STREAM from the server
     /\ fresh' = [fresh EXCEPT ![c] = {}] /\ freshLo' = [freshLo EXCEPT ![c] = {}]
@@ -152,14 +170,14 @@ Resp(c, s, es) ==
     /\ send' = [send EXCEPT ![c] = IF es /\ s \in open[c] THEN @ \cup {s} ELSE @]
     /\ IF es /\ s \in open[c] /\ s \in cend[c] THEN Drop(c, {s}) ELSE NoDrop
     /\ SawStreamFrame(c, TRUE)
-    /\ UNCHANGED <<strict, dev, cst, lastId, cend, pr, dnr, maxc, ga, resv, own>>
+    /\ UNCHANGED <<strict, dev, nsf, cst, lastId, cend, pr, dnr, maxc, ga, resv, own>>
 
 SData(c, s, es) ==
     /\ c \in Conns /\ cst[c] = "up"
     /\ send' = [send EXCEPT ![c] = IF es /\ s \in open[c] THEN @ \cup {s} ELSE @]
     /\ IF es /\ s \in open[c] /\ s \in cend[c] THEN Drop(c, {s}) ELSE NoDrop
     /\ SawStreamFrame(c, TRUE)
-    /\ UNCHANGED <<strict, dev, cst, lastId, cend, pr, dnr, maxc, ga, resv, own, req>>
+    /\ UNCHANGED <<strict, dev, nsf, cst, lastId, cend, pr, dnr, maxc, ga, resv, own, req>>
 
 (* RST_STREAM from the server; REFUSED_STREAM (7) is retryable *)
 SRst(c, s, code) ==
@@ -174,7 +192,7 @@ SRst(c, s, code) ==
     /\ Drop(c, {s})
     /\ SawStreamFrame(c, FALSE)
     /\ dnr' = [dnr EXCEPT ![c] = @ \/ code = 1]
-    /\ UNCHANGED <<strict, dev, cst, lastId, cend, send, pr, maxc, ga, resv, own>>
+    /\ UNCHANGED <<strict, dev, nsf, cst, lastId, cend, send, pr, maxc, ga, resv, own>>
 
 PingAck(c) ==
     /\ c \in Conns /\ cst[c] = "up"
@@ -182,7 +200,7 @@ PingAck(c) ==
     /\ blocked' = [blocked EXCEPT ![c] = @ \/ pr[c] > 0]
     /\ freshLo' = [freshLo EXCEPT ![c] = {}]
     /\ lowm' = [lowm EXCEPT ![c] = IF pr[c] > 0 THEN maxc[c] ELSE @]
-    /\ UNCHANGED <<strict, dev, cst, lastId, open, cend, send, fresh, dnr, maxc, ga, resv, doomed, own, req>>
+    /\ UNCHANGED <<strict, dev, nsf, cst, lastId, open, cend, send, fresh, dnr, maxc, ga, resv, doomed, own, req>>
 
 (* GOAWAY(last, code).  Streams above last are aborted: C18 says they are retryable. *)
 AfterGoAway(q, special) ==
@@ -199,7 +217,7 @@ GoAway(c, last, code) ==
        /\ req' = [r \in Reqs |-> IF req[r].st = "open" /\ req[r].c = c /\ req[r].s \in hit
                                   THEN AfterGoAway(req[r], req[r].s = 1 /\ err) ELSE req[r]]
     /\ freshLo' = [freshLo EXCEPT ![c] = {}]
-    /\ UNCHANGED <<strict, dev, cst, lastId, open, cend, send, fresh, pr, blocked, dnr, maxc, resv, lowm, own>>
+    /\ UNCHANGED <<strict, dev, nsf, cst, lastId, open, cend, send, fresh, pr, blocked, dnr, maxc, resv, lowm, own>>
 
 (* the server closes the connection: what is in flight fails with the connection's error *)
 SClose(c) ==
@@ -211,7 +229,7 @@ SClose(c) ==
                  ELSE IF req[r].st = "wait" /\ req[r].direct = c THEN Fin(req[r], {"unusable", "notest"})
                  ELSE req[r]]
     /\ Drop(c, open[c])
-    /\ UNCHANGED <<strict, dev, lastId, cend, send, fresh, freshLo, pr, blocked, dnr, maxc, ga, resv, own>>
+    /\ UNCHANGED <<strict, dev, nsf, lastId, cend, send, fresh, freshLo, pr, blocked, dnr, maxc, ga, resv, own>>
 
 (* ---------------- client ---------------- *)
 (* the pool dials connection c.  C17 (strict): a new connection is not a way around the limit. *)
@@ -220,7 +238,7 @@ Dial(c) ==
     /\ \A d \in Conns : d < c => cst[d] # "none"
     /\ (J17 /\ strict) => ~\E d \in Conns : Usable(d)
     /\ cst' = [cst EXCEPT ![c] = "up"]
-    /\ UNCHANGED <<strict, dev, lastId, open, cend, send, fresh, freshLo, pr, blocked, dnr, maxc, ga, resv, lowm, doomed, own, req>>
+    /\ UNCHANGED <<strict, dev, nsf, lastId, open, cend, send, fresh, freshLo, pr, blocked, dnr, maxc, ga, resv, lowm, doomed, own, req>>
 
 (* HEADERS of request r open stream s on connection c *)
 Hdr(c, s, r, es) ==
@@ -238,7 +256,7 @@ Hdr(c, s, r, es) ==
     /\ fresh' = [fresh EXCEPT ![c] = @ \cup {s}] /\ freshLo' = [freshLo EXCEPT ![c] = @ \cup {s}]
     /\ own' = [own EXCEPT ![c] = (s :> [r |-> r, n |-> 0]) @@ @]
     /\ req' = [req EXCEPT ![r] = [@ EXCEPT !.st = "open", !.c = c, !.s = s, !.may = {}]]
-    /\ UNCHANGED <<strict, dev, cst, send, pr, blocked, dnr, maxc, ga, resv, lowm, doomed>>
+    /\ UNCHANGED <<strict, dev, nsf, cst, send, pr, blocked, dnr, maxc, ga, resv, lowm, doomed>>
 
 (* DATA of n bytes (first byte b0, last byte b1).  C18 "not lost": every attempt of a request,  *)
 (* first or retried, carries the request body from its first byte (position-dependent pattern)  *)
@@ -253,7 +271,7 @@ Data(c, s, n, es, b0, b1) ==
     /\ own' = [own EXCEPT ![c][s].n = @ + n]
     /\ cend' = [cend EXCEPT ![c] = IF es THEN @ \cup {s} ELSE @]
     /\ IF es /\ s \in open[c] /\ s \in send[c] THEN Drop(c, {s}) ELSE NoDrop
-    /\ UNCHANGED <<strict, dev, cst, lastId, send, fresh, freshLo, pr, blocked, dnr, maxc, ga, resv, req>>
+    /\ UNCHANGED <<strict, dev, nsf, cst, lastId, send, fresh, freshLo, pr, blocked, dnr, maxc, ga, resv, req>>
 
 (* RST_STREAM from the client.  A CANCEL (8) reset of a request the server has not answered in  *)
 (* any way keeps its concurrency slot until a PING ack ("pending reset").                        *)
@@ -265,7 +283,7 @@ Rst(c, s, code) ==
        \/ can /\ pr' = [pr EXCEPT ![c] = @ + 1]
        \/ ~must /\ pr' = pr
     /\ Drop(c, {s})
-    /\ UNCHANGED <<strict, dev, cst, lastId, cend, send, fresh, freshLo, blocked, dnr, maxc, ga, resv, own, req>>
+    /\ UNCHANGED <<strict, dev, nsf, cst, lastId, cend, send, fresh, freshLo, blocked, dnr, maxc, ga, resv, own, req>>
 
 (* RoundTrip returns *)
 Ret(r, kind) ==
@@ -274,7 +292,9 @@ Ret(r, kind) ==
        \/ /\ kind = "unusable" /\ req[r].st = "wait" /\ req[r].direct # 0     \* direct call on a connection that
           /\ LET c == req[r].direct IN                                         \* takes no requests (now)
              ~Usable(c) \/ (~strict /\ Count(c) + resv[c] >= maxc[c])
+       \/ kind = "hdrerr" /\ req[r].st = "wait" /\ req[r].hdr # "ok"       \* refused while encoding HEADERS
     /\ req' = [req EXCEPT ![r] = [@ EXCEPT !.st = "done", !.may = {}]]
+    /\ nsf' = IF req[r].st = "wait" /\ kind \in {"unusable", "notest"} THEN nsf + 1 ELSE nsf
     /\ UNCHANGED <<strict, dev, connVars>>
 
 (* the client closes the connection.  C18: not under a request the server may still answer. *)
@@ -283,7 +303,7 @@ CClosed(c) ==
     /\ J18 => ~\E r \in Reqs : req[r].st = "open" /\ req[r].c = c /\ cst[c] = "up"
     /\ cst' = [cst EXCEPT ![c] = "closed"]
     /\ Drop(c, open[c])
-    /\ UNCHANGED <<strict, dev, lastId, cend, send, fresh, freshLo, pr, blocked, dnr, maxc, ga, resv, own, req>>
+    /\ UNCHANGED <<strict, dev, nsf, lastId, cend, send, fresh, freshLo, pr, blocked, dnr, maxc, ga, resv, own, req>>
 
 -----------------------------------------------------------------------------
 (* ---------------- quiescent points ---------------- *)
@@ -298,6 +318,14 @@ QuiesceOK(facts) ==
          /\ J17 => IF strict
                    THEN (f.pd > 0 /\ Usable(f.c)) => Count(f.c) + f.rv >= lowm[f.c]                 \* waiting only when full
                    ELSE f.pd <= Cardinality({r \in Waiting : req[r].direct = f.c})                     \* pool never queues
+         (* reservations (cc.streamsReserved) are compared exactly: one per reserved-and-unused slot, released *)
+         (* once.  Fewer: only the known double release of RoundTrips that ended without a stream id (at most   *)
+         (* nsf of them since the last q, see ReservationLost); more: only requests queued in strict mode       *)
+         /\ (J17 /\ Usable(f.c)) => resv[f.c] - f.rv <= nsf
+         /\ (J17 /\ ~strict /\ cst[f.c] = "up") => f.rv <= resv[f.c]
+    /\ (J17 /\ strict) =>
+          FoldSet(LAMBDA f, acc : acc + f.pd + (IF cst[f.c] = "up" /\ f.rv > resv[f.c] THEN f.rv - resv[f.c] ELSE 0), 0, facts)
+             <= Cardinality(Waiting)
 
 (* at a quiescent point the choice "retry or report" has been made.                              *)
 (* Named deviations of the real code (known findings) are recorded in dev (judged through         *)
@@ -316,6 +344,8 @@ Quiesce(facts) ==
            stall == {f \in facts : StallAt(f)} IN
        /\ resv' = [c \in Conns |-> IF \E f \in less : f.c = c THEN (CHOOSE f \in less : f.c = c).rv ELSE resv[c]]
        /\ dev' = dev \cup (IF lost # {} THEN {"ReservationLost"} ELSE {}) \cup (IF stall # {} THEN {"StrictQueueStall"} ELSE {})
+    (* the allowance for the known double release is kept while queued requests' reservations can hide a loss *)
+    /\ nsf' = IF \E f \in facts : cst[f.c] = "up" /\ (f.rv > resv[f.c] \/ f.pd > 0) THEN nsf ELSE 0
     /\ UNCHANGED <<strict, cst, lastId, open, cend, send, fresh, freshLo, pr, blocked, dnr, maxc, ga, lowm, doomed, own>>
 
 NoDeviation == dev = {}
@@ -337,17 +367,17 @@ ClientStep ==
           LET r == own[c][s].r  off == own[c][s].n  n == req[r].len - off IN
           Data(c, s, n, TRUE, Pat(r, off), Pat(r, off + n - 1))
     \/ \E c \in Conns : \E s \in doomed[c] : \E code \in {8} : Rst(c, s, code)
-    \/ \E r \in Reqs : \E k \in req[r].may \cup {"unusable"} : Ret(r, k)
+    \/ \E r \in Reqs : \E k \in req[r].may \cup {"unusable", "hdrerr"} : Ret(r, k)
     \/ \E c \in Conns : (ga[c].on \/ dnr[c] \/ cst[c] = "closed") /\ open[c] = {} /\ cst[c] = "up" /\ CClosed(c)
 
 On(x) == x \in MCEnv
 BodyLen(b) == IF b = "none" THEN 0 ELSE 2
 EnvStep ==
-    \/ \E r \in Reqs, b \in MCBodies : (\A q \in Reqs : q < r => req[q].st # "new") /\ Start(r, b, BodyLen(b))
+    \/ \E r \in Reqs, b \in MCBodies : (\A q \in Reqs : q < r => req[q].st # "new") /\ Start(r, b, BodyLen(b), "ok")
     \/ On("cancel") /\ \E r \in Reqs : Cancel(r) /\ req[r].st # "done"
     \/ On("closebody") /\ \E r \in Reqs : CloseBody(r) /\ req[r].c \in Conns /\ req[r].s \in open[req[r].c]
     \/ On("settings") /\ \E c \in Conns, m \in MCMax : Settings(c, m) /\ m # maxc[c]
-    \/ On("settings_other") /\ \E c \in Conns : SettingsOther(c) /\ freshLo[c] # {}
+    \/ On("settings_other") /\ \E c \in Conns : SettingsOther(c, FALSE) /\ freshLo[c] # {}
     \/ \E c \in Conns : \E s \in open[c] \ send[c] : \E es \in (IF On("closebody") THEN BOOLEAN ELSE {TRUE}) :
           Resp(c, s, es) /\ InFlight(OwnerOf(c, s), c, s)
     \/ \E c \in Conns : \E s \in open[c] \ send[c] : SData(c, s, TRUE) /\ ~InFlight(OwnerOf(c, s), c, s)
@@ -385,5 +415,5 @@ NoSecondCopy == \A r \in Reqs :
 (* C18: after GOAWAY no stream is opened on that connection *)
 QuietAfterGoAway == [][\A c \in Conns : ga[c].on => lastId'[c] = lastId[c]]_vars
 IncreasingIds == [][\A c \in Conns : lastId'[c] >= lastId[c]]_vars
-mcView == <<strict, dev, cst, lastId, open, cend, send, fresh, freshLo, pr, blocked, dnr, maxc, ga, resv, lowm, doomed, own, req>>
+mcView == <<strict, dev, nsf, cst, lastId, open, cend, send, fresh, freshLo, pr, blocked, dnr, maxc, ga, resv, lowm, doomed, own, req>>
 =============================================================================
